@@ -6,17 +6,34 @@ import c20_common as F
 SV = F.SV
 
 
+# Provider i's answer.  Deliberately "empty-looking" but valid data (balance 0, no utxos, ...): only the value False is
+# documented as "no answer", so these must come back as answers; they are pairwise different, so the source is visible.
+ANSWERS = [0, [], '', ()]
+
+
 def _answer_of(i):
-    return ('answer', F.url(i))
+    return ANSWERS[i]
 
 
-def _core(outs, prios, max_errors, max_providers, ignore_priority=False, strict_limit=False, need_key=()):
-    """run the real _provider_execute('getdata', 1) and compare with the fail-over specification"""
+def _is(res, i):
+    return type(res) is type(ANSWERS[i]) and res == ANSWERS[i]
+
+
+ALPHA_B = (F.ANSWER, F.RAISE_PLAIN, F.EMPTY, F.NO_METHOD)
+
+
+def _core(outs, prios, max_errors, max_providers, ignore_priority=False, strict_limit=False, kp=None, amap=None):
+    """Run the real _provider_execute('getdata', 1) on len(outs) providers and compare with the fail-over
+    specification.  outs[i]: outcome of provider i (an index into amap if given); prios: distinct priorities in
+    0..k-1; kp: index of a provider that is configured without api key, or None."""
     k = len(outs)
+    outs = [F.Lazy(o, 0, 5 if amap is None else len(amap) - 1, amap) for o in outs]
+    prios = [F.conc(p, 0, k - 1) for p in prios]
+    need_key = () if kp is None else (F.conc(kp, 0, k - 1),)
     F.install()
     try:
         for i in range(k):
-            F.ANS[F.url(i)] = (lambda u: (lambda method, args: ('answer', u)))(F.url(i))
+            F.ANS[F.url(i)] = (lambda i: (lambda method, args: ANSWERS[i]))(i)
         srv = F.make_service(outs, prios, max_errors, max_providers, ignore_priority=ignore_priority, need_key=need_key)
         try:
             res = srv._provider_execute('getdata', 1)
@@ -30,12 +47,12 @@ def _core(outs, prios, max_errors, max_providers, ignore_priority=False, strict_
         # (a) no fabrication: a value that is returned is the answer of an answering provider - and, more precisely,
         #     of the highest-priority answering one
         if not failed:
-            if first is None or res != _answer_of(first):
+            if first is None or not _is(res, first):
                 return False
         # (b) availability   (c) failure when nobody answers / the error limit is reached by raising providers first
         if verdict == F.MUST_OK and failed:
             return False
-        if verdict == F.MUST_FAIL and not failed:
+        if verdict in F.MUST_FAIL and not failed:
             return False
         if strict_limit and verdict == F.MAY and not failed:
             return False
@@ -43,10 +60,10 @@ def _core(outs, prios, max_errors, max_providers, ignore_priority=False, strict_
         # errors names failing providers only; never more than max_providers results; nothing left over on failure
         for name in srv.results:
             i = int(name[4:])
-            if outs[i] != F.ANSWER or srv.results[name] != _answer_of(i) or i in need_key:
+            if outs[i].get() != F.ANSWER or not _is(srv.results[name], i) or i in need_key:
                 return False
         for name in srv.errors:
-            if outs[int(name[4:])] not in F.FAILING:
+            if outs[int(name[4:])].get() not in F.FAILING:
                 return False
         if len(srv.results) > max_providers or srv.resultcount != len(srv.results):
             return False
@@ -61,55 +78,3 @@ def _core(outs, prios, max_errors, max_providers, ignore_priority=False, strict_
     finally:
         F.restore()
 
-
-def chk_pe3_mp1(o0: int, o1: int, o2: int, p0: int, p1: int, p2: int, max_errors: int) -> bool:
-    """
-    pre: 0 <= o0 <= 5 and 0 <= o1 <= 5 and 0 <= o2 <= 5
-    pre: 0 <= p0 <= 2 and 0 <= p1 <= 2 and 0 <= p2 <= 2 and p0 != p1 and p1 != p2 and p0 != p2
-    pre: 1 <= max_errors <= 4
-    post: _
-    """
-    return _core([o0, o1, o2], [p0, p1, p2], max_errors, 1)
-
-
-def chk_pe3_mp2(o0: int, o1: int, o2: int, p0: int, p1: int, p2: int, max_errors: int) -> bool:
-    """
-    pre: 0 <= o0 <= 5 and 0 <= o1 <= 5 and 0 <= o2 <= 5
-    pre: 0 <= p0 <= 2 and 0 <= p1 <= 2 and 0 <= p2 <= 2 and p0 != p1 and p1 != p2 and p0 != p2
-    pre: 1 <= max_errors <= 4
-    post: _
-    """
-    return _core([o0, o1, o2], [p0, p1, p2], max_errors, 2)
-
-
-def chk_pe3_mp3(o0: int, o1: int, o2: int, p0: int, p1: int, p2: int, max_errors: int) -> bool:
-    """
-    pre: 0 <= o0 <= 5 and 0 <= o1 <= 5 and 0 <= o2 <= 5
-    pre: 0 <= p0 <= 2 and 0 <= p1 <= 2 and 0 <= p2 <= 2 and p0 != p1 and p1 != p2 and p0 != p2
-    pre: 1 <= max_errors <= 4
-    post: _
-    """
-    return _core([o0, o1, o2], [p0, p1, p2], max_errors, 3)
-
-
-def chk_pe3_ignore_priority(o0: int, o1: int, o2: int, p0: int, p1: int, p2: int, max_errors: int,
-                            max_providers: int) -> bool:
-    """
-    pre: 0 <= o0 <= 3 and 0 <= o1 <= 3 and 0 <= o2 <= 3
-    pre: 0 <= p0 <= 2 and 0 <= p1 <= 2 and 0 <= p2 <= 2 and p0 != p1 and p1 != p2 and p0 != p2
-    pre: 1 <= max_errors <= 3 and 1 <= max_providers <= 2
-    post: _
-    """
-    return _core([o0, o1, o2], [p0, p1, p2], max_errors, max_providers, ignore_priority=True)
-
-
-def chk_pe3_strict_limit(o0: int, o1: int, o2: int, max_errors: int) -> bool:
-    """NOT REGISTERED (see harness/c20.py): the strict reading 'max_errors errors of any kind before the first answer
-    => the call fails'.  The library counts an empty answer as an error but only tests the limit when a provider
-    raises, so (EMPTY, ANSWER, _) with max_errors=1 succeeds.
-
-    pre: 0 <= o0 <= 3 and 0 <= o1 <= 3 and 0 <= o2 <= 3
-    pre: 1 <= max_errors <= 3
-    post: _
-    """
-    return _core([o0, o1, o2], [2, 1, 0], max_errors, 1, strict_limit=True)
